@@ -179,7 +179,10 @@ func TestVerifRepairPaths(t *testing.T) {
 					cur.Cause = &failure122.Failure{Message: "ok"}
 					cur = cur.Cause
 				}
-				cur.Message = "bad \xff\xfe tail"
+				// the kind of damage varies from path to path: a stray byte, a truncated 4-byte rune and three stray
+				// continuation bytes (both repaired to text of the SAME length), an overlong form
+				samples := []string{"bad \xff\xfe tail", "\xf0\x9f\x98", "\x80\x80\x80", "cut \xe2\x82", "\xc0\xaf"}
+				cur.Message = samples[(npaths+depth)%len(samples)]
 				msg := vpBuild(rt, path, leaf).Interface()
 				changed, err := RepairInvalidUTF8(msg)
 				if err != nil || !changed || !vpChainValid(leaf) {
